@@ -107,7 +107,7 @@ class Trace:
         elif k == "rv":
             base = "expr:%r" % r[1].rv
         elif k == "multi":
-            base = "local:%s" % (r[2] or r[1])
+            base = "local"  # no names: a description must not change when a variable is renamed
         else:
             base = k
         if self.fields:
